@@ -25,8 +25,9 @@ type Case struct {
 	Previous string `json:"content_under_the_name_before_the_write,omitempty"`
 }
 
-var positions = []string{"env-value", "hook-arg", "hook-path", "mount-option", "mount-hostpath", "annotation-value", "rdt-l3schema", "devnode-hostpath",
-	"hook-env-value", "mount-type", "rdt-membw", "mount-containerpath", "devnode-path", "spec-env-value"}
+// spec-env-value is the LAST scalar of the whole document in both encodings (what follows it is the end of the file)
+var positions = []string{"env-value", "hook-arg", "hook-path", "mount-option", "mount-hostpath", "annotation-value", "spec-env-value", "rdt-l3schema", "devnode-hostpath",
+	"hook-env-value", "mount-type", "rdt-membw", "mount-containerpath", "devnode-path"}
 
 func iptr(v int) *int        { return &v }
 func u32(v uint32) *uint32   { return &v }
@@ -231,7 +232,7 @@ func numericSpecs() map[string]*specs.Spec {
 
 var sensitive = []string{"yes", "no", "on", "off", "y", "n", "Y", "N", "true", "false", "True", "TRUE", "~", "null", "Null", "NULL", "", " ", "0123", "0x1f", "0o17", "0b101", "1_000", "1e3", "1.5", ".5", "+1", "-1",
 	".inf", "-.inf", ".nan", ".NaN", "2001-12-14", "2001-12-14t21:59:43.10-05:00", "2001-12-14 21:59:43", "12:30:45", "1:20", "190:20:30", " lead", "trail ", "\ttab", "tab\t", "a\tb",
-	"line\nbreak", "trailing\n", "\nleading", " a\nb", "\ta\nb", "  x\ny\n", " \n", "a\n b", "a\n\tb", "a \nb", "a\n\nb", "a\r\nb", "cr\r", "'single'", "\"double\"", "it's", "a\"b", "#comment", "a #b", "a: b", "a:b", ": ", "- item", "-", "--", "---", "...", "? q",
+	"line\nbreak", "trailing\n", "two-trailing\n\n", "three-trailing\n\n\n", "a\nb\n\n", "blank-then-breaks \n\n", "\nleading", " a\nb", "\ta\nb", "  x\ny\n", " \n", "a\n b", "a\n\tb", "a \nb", "a\n\nb", "a\r\nb", "cr\r", "'single'", "\"double\"", "it's", "a\"b", "#comment", "a #b", "a: b", "a:b", ": ", "- item", "-", "--", "---", "...", "? q",
 	"| pipe", "> fold", "|", ">", "&anchor", "*alias", "!tag", "!!str x", "%directive", "@at", "`tick", "{brace}", "[bracket]", "{", "[", "]", "}", ",", "a, b", "\\backslash", "a\\nb", "\\",
 	strings.Repeat("long ", 30), strings.Repeat("x", 200), "\ufeff", "\ufeffbom", "\U0001F600", "a\U0001F600b", "\u00e9", "\u0085", "a\u0085b", "\u00a0", "\u200b", "\ufffd", "\ufffe", "\uffff", "\u2028", "a\u2029b",
 	"=", "==", "a=b=c", "<<", "<<: x", "0", "00", "-0", "0.0", "1e400", "0xZZ", "12e03", "1.", "\u0663", "\x7f", "a\x7fb", "\x1b[0m", "\x00", "a\x00b", "\x01", "\x08", "\x0b", "\x0c", "\x1f"}
@@ -500,7 +501,7 @@ func main() {
 			}
 		}
 	}
-	npos := 6
+	npos := 7
 	if r.Thorough() {
 		npos = len(positions)
 	}
